@@ -1224,11 +1224,12 @@ class LineCoverageInstrumentation(transformer.LineCoverageInstrumentationAdapter
         lineno: int | _UNSET | None = None
 
         for instr_index, instr in node.instrumentation_original_instructions:
-            if (
-                ast_info is not None
-                and isinstance(instr.lineno, int)
-                and not ast_info.should_cover_line(instr.lineno)
-            ):
+            if not isinstance(instr.lineno, int):
+                # Instructions generated by the compiler without a line, e.g., the
+                # clean-up code of generators, do not belong to any line of the module.
+                continue
+
+            if ast_info is not None and not ast_info.should_cover_line(instr.lineno):
                 continue
 
             if self.should_instrument_line(instr, lineno):
